@@ -300,9 +300,9 @@ def _cfg_grid(tier, seed):
     if tier == "quick":
         return q
     out = list(q)
-    for sh in [(1, 1), (3, 1), (3, 3), (2, 3), (3, 2)]:
+    for sh in [(1, 1), (3, 1), (1, 4), (3, 3), (2, 3), (3, 2), (4, 4), (2, 5)]:
         for pix in (False, True):
-            for proj in (None, ("-1/2", "4")):
+            for proj in (None, ("-1/2", "4"), ("3/5", "-4/5", "4/5", "3/5")):
                 out.append({"region": "given", "shape": sh, "pixel": pix, "proj": proj, "ncomp": 2})
     for adjust in ("spacing", "region"):
         for pix in (False, True):
